@@ -40,6 +40,10 @@ pub trait JobT: Send + Sync {
     fn run(&self, threads: usize, site_kinds: &std::collections::HashSet<String>, known: &std::collections::HashSet<(String, String)>) -> JobOutcome;
     /// re-execute one abstract history with this job's oracles; returns (text report, failures)
     fn replay(&self, abs: &[Abs]) -> (String, Vec<Failure>);
+    /// Behavioural signature of a (core) history under this job's delivery discipline and transition kinds:
+    /// per knowledge set the number of ==-distinct states and of distinct reads, plus the failures reported.
+    /// A listed core whose signature changes is reported again (it "fails differently").
+    fn signature(&self, abs: &[Abs]) -> (String, String);
     /// stand-alone Rust test for a failure of `abs` at knowledge set `mask`
     fn rust_test(&self, abs: &[Abs], mask: Mask, kind: &str, detail: &str) -> Option<String>;
 }
@@ -382,6 +386,53 @@ impl<Y: Sys> JobT for Job<Y> {
             txt.push_str(&format!("FAIL kind={} at knowledge {:b}\n", f.kind, f.mask));
         }
         (txt, sink.failures)
+    }
+    fn signature(&self, abs: &[Abs]) -> (String, String) {
+        // one signature per configuration family: the label without its op bound (quick and thorough share it)
+        let mut key = String::new();
+        let lab = self.cfg.label.as_str();
+        let mut i = 0;
+        let b = lab.as_bytes();
+        while i < b.len() {
+            if lab[i..].starts_with("n<=") {
+                key.push('n');
+                i += 3;
+                while i < b.len() && b[i].is_ascii_digit() {
+                    i += 1;
+                }
+            } else {
+                key.push(b[i] as char);
+                i += 1;
+            }
+        }
+        let mut v = self.visitor.fresh();
+        let mut sink = Sink::default();
+        let mut st = Stats::default();
+        let mut txt = String::new();
+        if let Some(h) = rebuild::<Y>(abs, &self.cfg, Some((v.as_mut(), &mut sink)), &mut st) {
+            for m in 0..(h.table.len() as Mask) {
+                let ents = &h.table[m as usize];
+                if ents.is_empty() {
+                    continue;
+                }
+                let reads: std::collections::BTreeSet<String> = ents
+                    .iter()
+                    .map(|e| std::panic::catch_unwind(std::panic::AssertUnwindSafe(|| Y::reads(&e.s))).unwrap_or_else(|_| "panic".into()))
+                    .collect();
+                txt.push_str(&format!("{:x}:{}:{};", m, ents.len(), reads.len()));
+            }
+        } else {
+            txt.push_str("unbuildable;");
+        }
+        let mut fs: Vec<String> = sink.failures.iter().map(|f| format!("{}@{:x}", f.kind, f.mask)).collect();
+        fs.sort();
+        txt.push_str(&fs.join(","));
+        let mut hsh: u64 = 0xcbf29ce484222325;
+        for b in txt.bytes() {
+            hsh ^= b as u64;
+            hsh = hsh.wrapping_mul(0x100000001b3);
+        }
+        (key, format!("{:016x}", hsh))
     }
     fn rust_test(&self, abs: &[Abs], mask: Mask, kind: &str, detail: &str) -> Option<String> {
         let mut st = Stats::default();
